@@ -127,9 +127,13 @@ impl log::Log for ProbeLogger {
             }
         }
         drop(probes);
+        let lvl = record.level();
         kernel::try_with(|k| {
             if let Some(h) = hit {
                 k.probe(h);
+            }
+            if lvl == log::Level::Error {
+                k.probe("log_error");
             }
             if k.trace.is_some() {
                 let m = msg.to_string();
